@@ -162,6 +162,12 @@ class FortranAST:
         ech : int
             End character
         """
+        # Columns found in a statement joined from continuation lines need not
+        # exist on its first line, mark the whole line then
+        if self.file is not None and 0 < ln <= len(self.file.contents_split):
+            line_len = len(self.file.contents_split[ln - 1])
+            if ech is not None and (sch > line_len or ech > line_len):
+                sch, ech = 0, line_len
         # Convert from Editor line numbers 1-base index to LSP index which is 0-based
         self.parse_errors.append(diagnostic_json(ln - 1, sch, ln - 1, ech, msg, sev))
 
